@@ -258,6 +258,14 @@ def run(ctx, lean_ok):
             m = mixgen.masses(r, n)
             T, P = mixgen.state(r)
             e = mixgen.eos_args(fm)
+            # the library routines take the acentric factors as an argument: exercise the omega > 0.49 branch of the
+            # modified Peng-Robinson m(omega) (every database compound has omega <= 0.49) and both sides of its edge
+            u = r.random()
+            if u < 0.35:
+                e['omega'] = np.array([r.uniform(0., 1.2) for _ in range(n)])
+            elif u < 0.6:
+                e['omega'] = np.array([0.49 + r.choice([-1, 1]) * 10 ** r.uniform(-5, -2) for _ in range(n)])
+            ctx.count('omega:' + ('>0.49' if np.any(e['omega'] > 0.49) else '<=0.49'))
             common_args = dict(T=T, P=P, mass=m, Mol_wt=e['Mol_wt'], Pc=e['Pc'], Tc=e['Tc'], omega=e['omega'],
                                Aij=e['Aij'], Bij=e['Bij'], delta_groups=e['delta_groups'], calc_delta=e['calc_delta'])
             for fn in EOS_FULL:
